@@ -41,7 +41,7 @@ def run(rep, tier, seed):
     p_c01.model_check(rep, tier)
     names = ["accept-and-hold", "operate-and-get-next", "accept-and-infer-next-history", "insert-comment", "edit-and-execute-command", "probe-panic"]
     binds, seqs = private_binds(names)
-    n = 260 if tier == "quick" else 6000
+    n = 900 if tier == "quick" else 6000
     cases, meta = [], {}
     for ci in range(n):
         mode = rng.choice(["emacs", "vi-insert", "vi-command"])
